@@ -46,6 +46,22 @@ def gen(rs: int, tier: str, index: int) -> dict:
     s = gen_worker_script(rs, KNOBS)
     from sim.rng import stream
     r = stream(rs, "c06")
+    # broker.dependency_overrides: replace a dependency by one that brings its own (possibly un-cached, Context-using) sub-dependencies
+    for t in s["tasks"]:
+        if t.get("deps") and r.random() < 0.4:
+            nodes = t["deps"]
+            oi = r.randrange(len(nodes))
+            earlier = nodes[:oi]
+            n0 = len(nodes)
+            leaf = {"id": f"r{n0}c", "style": r.choice(["plain", "coro", "gen", "agen"]), "deps": [], "ctx": True, "us": [r.choice([0, 1, 50, 500]), 0]}
+            subs = [[leaf["id"], r.random() < 0.4]]
+            for e in earlier:
+                if r.random() < 0.4:
+                    subs.append([e["id"], r.random() < 0.6])
+            repl = {"id": f"r{n0}", "style": r.choice(["plain", "coro", "gen", "agen", "cm", "acm"]), "deps": subs, "ctx": r.random() < 0.5,
+                    "us": [r.choice([0, 1, 50, 500, 5000]), 0]}
+            t["deps"] = nodes + [leaf, repl]
+            t["overrides"] = [[nodes[oi]["id"], repl["id"]]]
     for m in s["messages"]:
         if m.get("kind", "valid") == "valid":
             m["labels"] = {"own": ["str", f"L{m['k']}"], "n": ["int", str(m["k"] * 7)]}
@@ -134,7 +150,8 @@ def oracle(script: dict, run: Any) -> List[Violation]:
 
 def probes(script: dict, run: Any) -> Dict[str, int]:
     h = Hist(run)
-    res = {"overlap_inside_dependency_resolution": 0, "uncached_dependency_resolved": 0, "max_overlap": 0}
+    res = {"overlap_inside_dependency_resolution": 0, "uncached_dependency_resolved": 0, "max_overlap": 0,
+           "dependency_override_resolved": int(any(e[5]["dep"].startswith("r") for e in h.kind("dep_open")))}
     live = set()
     resolving = set()
     for e in h.events:
